@@ -129,6 +129,42 @@ impl<'a> Checker<'a> {
                 return false;
             }
         }
+        // signed transactions that are still waiting: a by-hash lookup may know them (without block
+        // coordinates) or not, but if it places one in a block, that block must list it there
+        if let Some(pool) = d.inst.call("txpool_content", json!([])).ok().cloned() {
+            let mut waiting: Vec<String> = Vec::new();
+            for section in ["pending", "queued"] {
+                if let Some(by_addr) = pool[section].as_object() {
+                    for (_, by_nonce) in by_addr {
+                        if let Some(m) = by_nonce.as_object() {
+                            for (_, tx) in m {
+                                if let Some(hh) = tx["hash"].as_str() {
+                                    waiting.push(hh.to_string());
+                                }
+                            }
+                        }
+                    }
+                }
+            }
+            for hh in waiting.into_iter().take(40) {
+                let t = d.inst.call("eth_getTransactionByHash", json!([hh]));
+                let rc = d.inst.call("eth_getTransactionReceipt", json!([hh]));
+                self.rep.evaluations += 1;
+                self.rep.nontrivial("waiting-tx-by-hash-lookup".to_string());
+                let Some(tv) = t.ok().cloned() else { continue };
+                if tv.is_null() || tv["blockNumber"].is_null() {
+                    continue;
+                }
+                let idx = qty(&tv["transactionIndex"]) as usize;
+                let blk = d.inst.call("eth_getBlockByNumber", json!([tv["blockNumber"], false]));
+                let listed = blk.ok().and_then(|b| b["transactions"].as_array().and_then(|a| a.get(idx).cloned())).and_then(|x| x.as_str().map(|x| x.eq_ignore_ascii_case(&hh))).unwrap_or(false);
+                let has_receipt = rc.ok().map(|v| !v.is_null()).unwrap_or(false);
+                if !listed || !has_receipt {
+                    self.fail(d, "lookup-places-waiting-tx-in-block", format!("eth_getTransactionByHash({}) says block {} index {} but that block does not list it there (listed: {}, receipt: {}); the transaction is still waiting in the pool", hh, tv["blockNumber"], idx, listed, has_receipt), json!({"lookup": tv}));
+                    return false;
+                }
+            }
+        }
         let mut prev_hash: Option<String> = None;
         // long stretches of mined (empty) blocks - chains initialised at a large height, or a gap of
         // 2^16 blocks - are sampled: their ends, and the blocks around multiples of 256 and 65 536
